@@ -621,7 +621,7 @@ fn trim_stage(in_gap: bool) {
     }
     std::mem::forget(t);
 }
-// @obl harness=c13_trim_horizon id=C13.trim_horizon[one_delta] tier=quick funcs="Tuple::vaccum_with,TupleReader::parse_last_version,DeltaHeader::read_from,Payload::realloc,TupleReader::check_null,DataTypeKind::deserialize" bounds="schema Int|Int; any 64-byte tuple of the one-delta layout (all stamps and values symbolic), any horizon; delta xmin <= live xmin; EXCLUDES delta xmin < horizon <= live xmin (= c13_trim_horizon_gap)" assume="delta.xmin <= header.xmin (versions are created in transaction-id order)" stubs="Column::datatype -> Int (exact: all columns of the schema are Int, see c18_column_datatype)" unwind=2
+// @obl harness=c13_trim_horizon id=C13.trim_horizon[one_delta] also=C18 tier=quick funcs="Tuple::vaccum_with,TupleReader::parse_last_version,DeltaHeader::read_from,Payload::realloc,TupleReader::check_null,DataTypeKind::deserialize" bounds="schema Int|Int; any 64-byte tuple of the one-delta layout (all stamps and values symbolic), any horizon; delta xmin <= live xmin; EXCLUDES delta xmin < horizon <= live xmin (= c13_trim_horizon_gap)" assume="delta.xmin <= header.xmin (versions are created in transaction-id order)" stubs="Column::datatype -> Int (exact: all columns of the schema are Int, see c18_column_datatype)" unwind=2
 #[kani::proof]
 #[kani::unwind(2)]
 #[kani::stub(crate::schema::base::Column::datatype, stub_dt_int)]
